@@ -559,6 +559,78 @@ theorem chain_bidi_http1_witness :
     (checks 0 (pretendHTTP2 bidiStreamProcedure
         (render { exBidi with version := .h2 } "S/t" exBidi exBidiV))).feedback = [] := by decide
 
+/-! ## The chain with and without a tracer: the body the checks probe
+
+With a tracer, `createServer` installs `tracer.TracingHandler` *around* the checks, so the body
+`checkCodec` probes with a zero-length read is the tracer's wrapper.  The statements about the
+chain above are therefore statements over the body as the checks see it; they carry over to every
+configuration whose wrapper forwards reads verbatim - which is the tracer's own property
+(C14/C15: tracing is transparent) - and are instantiated for both configurations. -/
+
+/-- **chain_wrapper_transparent.**  A wrapper that forwards reads verbatim leaves every verdict
+of the chain unchanged: feedback, rejection, timeout, the headers and the request the server
+implementation sees - for every request, body, procedure and repeat count. -/
+theorem chain_wrapper_transparent (w : BodyWrapper) (hw : w.transparent) (count : Nat) (path : String)
+    (r : Req) (p : Probe) :
+    serverChainW w count path r p = serverChainW noWrapper count path r p := by
+  simp only [serverChainW, noWrapper, hw p]
+
+/-- the tracer's reader is such a wrapper -/
+theorem tracingRead_transparent : tracingRead.transparent := fun _ => rfl
+
+/-- **chain_traced_eq_untraced.**  Sequences of requests get the same verdicts with and without
+a tracer. -/
+theorem chain_traced_eq_untraced (path : String) (calls : List String) (rs : List (Req × Probe)) :
+    serveChainW tracingRead path calls rs = serveChainW noWrapper path calls rs := rfl
+
+/-- **chain_no_feedback_iff_match_body.**  No feedback iff everything matches - for the chain as
+installed behind any transparent wrapper, for every procedure, and for every body a conformant
+client sends (none with GET; anything with POST). -/
+theorem chain_no_feedback_iff_match_body (w : BodyWrapper) (hw : w.transparent) (path : String)
+    (e : Aspects) (n : String) (a : Aspects) (v : Variant) (p : Probe)
+    (hn : n ≠ "") (hr : a.realisable = true) (hp : conformantProbe a p = true) :
+    (serverChainW w 0 path (render e n a v) p).outcome.feedback = [] ↔ aspectsMatch e a = true := by
+  rw [chain_wrapper_transparent w hw]
+  simp only [serverChainW, noWrapper, chain_outcome]
+  rw [checks_render_withBody 0 e n a v p hp]
+  exact no_feedback_iff_match e n a v hn hr
+
+/-- **chain_each_mismatch_named_body.**  Each deviating aspect is named, likewise. -/
+theorem chain_each_mismatch_named_body (w : BodyWrapper) (hw : w.transparent) (path : String)
+    (e : Aspects) (n : String) (a : Aspects) (v : Variant) (p : Probe)
+    (hn : n ≠ "") (hr : a.realisable = true) (hp : conformantProbe a p = true) :
+    flagsExactly e a (serverChainW w 0 path (render e n a v) p).outcome.feedback = true := by
+  rw [chain_wrapper_transparent w hw]
+  simp only [serverChainW, noWrapper, chain_outcome]
+  rw [checks_render_withBody 0 e n a v p hp]
+  exact each_mismatch_named e n a v hn hr
+
+/-- the two configurations `createServer` can build -/
+theorem chain_no_feedback_iff_match_traced (path : String) (e : Aspects) (n : String) (a : Aspects)
+    (v : Variant) (p : Probe) (hn : n ≠ "") (hr : a.realisable = true) (hp : conformantProbe a p = true) :
+    ((serverChainW tracingRead 0 path (render e n a v) p).outcome.feedback = [] ↔ aspectsMatch e a = true) ∧
+    ((serverChainW noWrapper 0 path (render e n a v) p).outcome.feedback = [] ↔ aspectsMatch e a = true) :=
+  ⟨chain_no_feedback_iff_match_body _ tracingRead_transparent path e n a v p hn hr hp,
+   chain_no_feedback_iff_match_body _ (fun _ => rfl) path e n a v p hn hr hp⟩
+
+private def exGet : Aspects := ⟨.h1, .get, .connect, .proto, .identity, false, false⟩
+private def exGetV : Variant := ⟨false, false, false⟩
+
+/-- Non-vacuity, and why "verbatim" includes the zero-length read: a Connect GET that matches in
+every aspect gets no feedback with and without the tracer; a GET that does carry a body is flagged
+in both; a wrapper that answers a zero-length read itself with `(0, nil)` ("nothing to read into
+an empty buffer") makes the checks flag every conformant GET - and is not transparent. -/
+theorem chain_body_probe_witness :
+    exGet.realisable = true ∧ conformantProbe exGet .eof = true ∧ aspectsMatch exGet exGet = true ∧
+    (serverChainW tracingRead 0 "/p" (render exGet "S/get" exGet exGetV) .eof).outcome.feedback = [] ∧
+    (serverChainW noWrapper 0 "/p" (render exGet "S/get" exGet exGetV) .eof).outcome.feedback = [] ∧
+    (serverChainW tracingRead 0 "/p" (render exGet "S/get" exGet exGetV) .nothing).outcome.feedback = [.getBody] ∧
+    (serverChainW (fun _ => .nothing) 0 "/p" (render exGet "S/get" exGet exGetV) .eof).outcome.feedback = [.getBody] ∧
+    ¬ BodyWrapper.transparent (fun _ => .nothing) := by
+  refine ⟨by decide, by decide, by decide, by decide, by decide, by decide, by decide, ?_⟩
+  intro h
+  exact absurd (h .eof) (by decide)
+
 /-! ## "reports feedback naming the test case": from the printer to the runner
 
 The feedback of the checks is only worth something if the runner can tell which test case it
@@ -782,5 +854,43 @@ theorem feedback_stream_witness :
     processLines names (limitedLines 16 (printed msgs)) = ([], []) ∧
     processLines names (limitedLines 16 (printed (msgs.drop 1))) = ([], msgs.drop 1) := by
   decide
+
+/-! ## The reference client's feedback (mode server)
+
+The other source of `recordSideband`: the reference client reports what it found wrong with a
+response in `ClientResponseResult.feedback`; the runner records every message for the test case
+the response names.  No text is parsed on this path: whatever the message and the test name are
+made of, the feedback of a case is attributed to that case and to no other. -/
+
+open ConfModel.FeedbackStream in
+/-- **client_feedback_attributed.**  After the responses of a batch (one per test case), the
+runner holds for each test case exactly the last feedback message of its own response - nothing
+if the response had none - whatever the responses of the other cases say, for all texts. -/
+theorem client_feedback_attributed (before after : List (List Char × List (List Char)))
+    (nm : List Char) (msgs : List (List Char))
+    (hb : ∀ r ∈ before, r.1 ≠ nm) (ha : ∀ r ∈ after, r.1 ≠ nm) :
+    sideband (clientRecords (before ++ (nm, msgs) :: after)) nm = msgs.getLast? := by
+  have h1 : sideband (clientRecords after) nm = none :=
+    sideband_none _ nm (clientRecords_names after nm ha)
+  have h2 : sideband (clientRecords before) nm = none :=
+    sideband_none _ nm (clientRecords_names before nm hb)
+  rw [clientRecords_append, sideband_append]
+  simp only [clientRecords]
+  rw [sideband_append, h1]
+  simp only
+  rw [sideband_own]
+  cases hm : msgs.getLast? with
+  | some m => rfl
+  | none => simpa using h2
+
+open ConfModel.FeedbackStream in
+/-- Non-vacuity: a message that looks like a sideband line of another case stays with its own case. -/
+example : (∀ r ∈ [("A".toList, ["x".toList])], r.1 ≠ "B".toList) ∧
+    sideband (clientRecords [("A".toList, ["x".toList]), ("B".toList, ["A: not yours".toList, "100%".toList]), ("C".toList, [])])
+      "B".toList = some "100%".toList ∧
+    sideband (clientRecords [("A".toList, ["x".toList]), ("B".toList, ["A: not yours".toList]), ("C".toList, [])])
+      "A".toList = some "x".toList ∧
+    sideband (clientRecords [("A".toList, ["x".toList]), ("B".toList, ["A: not yours".toList]), ("C".toList, [])])
+      "C".toList = none := by decide
 
 end ConfModel.Props.C12
